@@ -434,16 +434,37 @@ func genHTTP(targets []string, lo, hi int, withBody bool) func(r *core.Rng) ([][
 				t += "?q=" + word(r)
 			}
 			var body []byte
+			longChunked := 0
 			if m == "POST" || m == "PUT" {
 				body = []byte("k=" + r.Alnum(r.Range(0, 60)))
+				if withBody && r.Chance(1, 3) {
+					// longer than the part of the body the service records (1024 bytes)
+					long := [][2]int{{1500, 1}, {3000, 1}, {1500, 0}, {1022, 1}, {3000, 1}}[r.Intn(5)]
+					body = []byte("k=" + r.Alnum(long[0]))
+					longChunked = long[1]
+				}
 			}
 			hs := [][2]string{{"Host", "h.test"}, {"X-Tag", word(r)}}
-			ch = append(ch, gen.HTTPRequest(m, t, hs, body, body != nil && r.Chance(1, 3)))
+			chunked := body != nil && r.Chance(1, 3)
+			if len(body) > 1000 {
+				chunked = longChunked == 1
+			}
+			ch = append(ch, gen.HTTPRequest(m, t, hs, body, chunked))
 			if withBody {
 				// the request's body is one of its decoded fields (the service records its first 1024 bytes)
-				ex = append(ex, "req:"+m+" "+t+" body="+string(body))
+				rec := body
+				if len(rec) > 1024 {
+					rec = rec[:1024]
+				}
+				ex = append(ex, "req:"+m+" "+t+" body="+string(rec))
 			} else {
 				ex = append(ex, "req:"+m+" "+t)
+			}
+			if len(body) > 1000 && i == 1 && hi > 1 {
+				// a long body is never the end of the stream: one more request follows it
+				t2 := "/after?q=" + word(r)
+				ch = append(ch, gen.HTTPRequest("GET", t2, hs, nil, false))
+				ex = append(ex, "req:GET "+t2+" body=")
 			}
 		}
 		return ch, ex
